@@ -331,6 +331,7 @@ def check_C05(tier):
         rep.case(("graph", s_), nontrivial=True)
     judge_roundtrips(rep, "small_graphs", gsm, "default", True, own)
     judge_roundtrips(rep, "small_graphs_lax", gsm[::3], "default", False, own)
+    matching_machine(rep, quick, (many[:: (4 if quick else 1)] + gsm + cages)[: (2500 if quick else 40000)])
     corpus_trace(rep, "aromatic", quick, own, [relaxed_table()], per_file=(40 if quick else 600),
                  variants=(3 if quick else 6), flt=is_aromatic_smiles, extra=cages)
     corpus_trace(rep, "aromatic_nonstrict", quick, own, [relaxed_table()], per_file=0, variants=0, strict=False,
@@ -339,6 +340,124 @@ def check_C05(tier):
     rep.assumptions += ["the pi-bond rule (Encoder!PiClass) decides the standard aromatic kinds; hypervalent, radical "
                         "and exotic centres are 'unspec': either reading is accepted there"]
     return rep.finish()
+
+
+def matching_machine(rep, quick, smiles_for_trace):
+    """The matching routine as its own machine (spec/Matching.tla, MatchCall.tla, TraceMatch.tla):
+    (1) TLC checks the algorithm - greedy phase, root choice in every order, alternating BFS with blossom
+        contraction - on every graph within the bounds;
+    (2) a negative configuration (no contraction) must be refuted: the model can see that bug class;
+    (3) every graph TLC enumerated is handed to the real find_perfect_matching, the calls are recorded
+        (greedy result, every root and path, the result) and TLC validates the records step by step;
+    (4) the calls the encoder makes while kekulising aromatic molecules are recorded and validated alike.
+    CONTRACT verdicts are C05 violations; DRIFT (the code runs another algorithm than the modelled one) is
+    reported in the evidence only."""
+    import match_engine as me
+    import json as _json
+    confs = [("all graphs <=5 nodes, ascending adjacency", dict(sizes=[0, 1, 2, 3, 4, 5], maxdeg=5, orders="asc")),
+             ("graphs on 6 nodes, degree <=3, ascending", dict(sizes=[6], maxdeg=3, orders="asc")),
+             ("graphs <=4 nodes, every adjacency order", dict(sizes=[0, 1, 2, 3, 4], maxdeg=3, orders="all"))]
+    if not quick:
+        confs += [("all graphs on 6 nodes, ascending", dict(sizes=[6], maxdeg=5, orders="asc")),
+                  ("graphs on 6 nodes, degree <=3, descending", dict(sizes=[6], maxdeg=3, orders="desc")),
+                  ("graphs on 7 nodes, degree <=3, ascending", dict(sizes=[7], maxdeg=3, orders="asc")),
+                  ("graphs on 5 nodes, degree <=3, every adjacency order", dict(sizes=[5], maxdeg=3, orders="all"))]
+    graphs = {}
+    seen_contr = seen_aug = seen_none = 0
+    for i, (what, kw) in enumerate(confs):
+        results, vec = me.run_match_tlc("m%d" % i, emit=True, fastjit=quick, **kw)
+        st = sum(r.distinct for r in results)
+        rep.states += st
+        rep.transitions += sum(r.generated for r in results)
+        rep.configs.append({"config": "Matching: " + what, "distinct_states": st, "terminal_runs": len(vec)})
+        for r in results:
+            if r.violated:
+                rep.violation("specification-level (Matching): %s violated on %s" % (r.violated, what), {"errors": r.errors[:2]})
+        for v in vec:
+            key = _json.dumps(v["g"])
+            graphs.setdefault(key, v["pm"])
+            seen_contr += v["contr"] > 0 and v["res"] == "matched"
+            seen_aug += v["augs"] > 0
+            seen_none += v["res"] == "none"
+    if not (seen_contr and seen_aug and seen_none):
+        raise MachineryError("vacuity guard: the matching model never contracted a blossom on the way to a matching / "
+                             "never augmented / never failed (%d %d %d)" % (seen_contr, seen_aug, seen_none))
+    # liveness on the small instances
+    results, _ = me.run_match_tlc("mlive", sizes=[0, 1, 2, 3, 4] + ([] if quick else [5]), maxdeg=3, orders="asc", liveness=True,
+                                  invariants=[], properties=[], fastjit=quick)
+    for r in results:
+        if r.violated:
+            rep.violation("specification-level (Matching): termination violated", {"errors": r.errors[:2]})
+    rep.states += sum(r.distinct for r in results)
+    # negative control
+    results, _ = me.run_match_tlc("mneg", sizes=[5, 6] if quick else [5, 6, 7], maxdeg=3, orders="asc", nocontract=True, fastjit=quick)
+    refuted = sorted(set(sum([r.violated for r in results if r.violated], [])))
+    if not ({"Complete", "PathAugments"} & set(refuted)):
+        raise MachineryError("negative control: the matching model without blossom contraction was not refuted (%s)" % refuted)
+    rep.notes["matching_negative_control"] = "without contraction TLC refutes %s" % refuted
+    # GEN -> REPLAY -> TRACE
+    with me.Recorder() as rec:
+        for key in graphs:
+            g = _json.loads(key)
+            try:
+                with de.time_limit(10.0):
+                    rec.call(g)
+            except BaseException as e:          # a crash or a hang of the routine on an enumerated graph
+                rep.violation("find_perfect_matching(%s) raised %s" % (key, type(e).__name__), {"graph": g})
+        # beyond the enumeration bound: near-cubic random graphs (8..16 nodes, shuffled adjacency lists) - where
+        # augmenting paths have to pass through contracted odd cycles
+        rngm = random.Random(seed() * 31 + 7)
+        for _ in range(5000 if quick else 60000):
+            n_ = rngm.randint(8, 16)
+            pairs = [(a, b) for a in range(n_) for b in range(a + 1, n_)]
+            rngm.shuffle(pairs)
+            g = [[] for _ in range(n_)]
+            m_ = int(rngm.uniform(1.2, 1.5) * n_)
+            for a, b in pairs:
+                if m_ <= 0:
+                    break
+                if len(g[a]) < 3 and len(g[b]) < 3:
+                    g[a].append(b)
+                    g[b].append(a)
+                    m_ -= 1
+            try:
+                with de.time_limit(10.0):
+                    rec.call(g)
+            except BaseException as e:
+                rep.violation("find_perfect_matching(%s) raised %s" % (g, type(e).__name__), {"graph": g})
+    direct = list(rec.records)
+    with me.Recorder() as rec2:
+        for s_ in smiles_for_trace:
+            de.call_encoder(s_, True)
+    viaenc = list(rec2.records)
+    rep.notes["matching_calls_recorded"] = {"enumerated_graphs": len(direct), "from_encoder_calls": len(viaenc),
+                                            "largest_graph": max([len(r["g"]) for r in viaenc] or [0])}
+    drift = 0
+    for name, recs in (("direct", direct), ("encoder", viaenc)):
+        results, events = me.validate_match_trace(name, recs, fastjit=quick)
+        rep.states += sum(r.distinct for r in results)
+        rep.transitions += sum(r.generated for r in results)
+        rep.traces += len(recs)
+        for e in events:
+            r_ = recs[e["tid"]]
+            if e["ev"] == "CONTRACT":
+                rep.violation("find_perfect_matching(%s): %s" % (_json.dumps(r_["g"])[:300], e["clause"]),
+                              {"graph": r_["g"], "events": r_["ev"], "clause": e["clause"]})
+            else:
+                drift += 1
+                if drift <= 3:
+                    rep.notes.setdefault("matching_drift_samples", []).append({"graph": r_["g"], "clause": e["clause"]})
+    # brute-force cross-check of "None": the enumerated graphs carry HasPM from the model checker
+    for r_ in direct:
+        pm = graphs.get(_json.dumps(r_["g"]))
+        ok = r_["ev"][-1]["ok"]
+        if pm is not None and pm != ok:
+            rep.violation("find_perfect_matching(%s) %s but a perfect matching %s" % (
+                _json.dumps(r_["g"]), "returned a list" if ok else "returned None", "exists" if pm else "does not exist"),
+                {"graph": r_["g"], "events": r_["ev"]})
+    rep.notes["matching_algorithm_conformance"] = ("every recorded step is a step of the model" if drift == 0 else
+                                                   "%d recorded steps are not steps of the modelled algorithm: the design-level "
+                                                   "results hold for the model only; the contract is still judged" % drift)
 
 
 # --------------------------------------------------------------------------
@@ -434,7 +553,23 @@ def check_C06(tier):
 # C09 - the encoder is total and terminates
 # --------------------------------------------------------------------------
 
-FUZZ_SMILES_CHARS = list("CNOcnosFClBr()[]123456789%=#:/\\.+-@H*$ ") + ["é", "²", "٣", "½", "€"]
+FUZZ_SMILES_CHARS = list("CNOcnosFClBr()[]123456789%=#:/\\.+-@H*$ {}") + ["é", "²", "٣", "½", "€", "①", "一", "{}", "{0}", "%s"]
+
+
+def big_number_smiles():
+    """Bracket atoms whose isotope / hydrogen count / charge has 20 ... 5000 digits, alone and inside chains,
+    rings and aromatic rings (float conversions, digit limits and size-dependent paths)."""
+    out = []
+    fields = [("[%sC]", "isotope"), ("[CH%s]", "h"), ("[C+%s]", "plus"), ("[C-%s]", "minus"), ("[%sc]", "aro isotope"),
+              ("[nH%s]", "aro h"), ("[n+%s]", "aro plus"), ("[n-%s]", "aro minus"), ("[c+%s]", "aro c plus"), ("[13C@H%s]", "chiral h")]
+    ctxs = ["%s", "C%sC", "C=%s", "%s1CC1", "c1cc%sc1", "c1ccc%scc1", "C(%s)(C)C", "c1cc2cc%sc2cc1"]
+    for tmpl, what in fields:
+        for nd in (20, 310, 400, 4299, 4301, 5000):
+            for dig in ("9", "1"):
+                atom = tmpl % (dig * nd)
+                for c in ctxs:
+                    out.append(("%s with %d digits in %s" % (what, nd, c % "X"), c % atom))
+    return out
 
 
 def check_C09(tier):
@@ -531,7 +666,11 @@ def check_C09(tier):
            ("wide ring", gs.macrocycle(5000)), ("isotope digits", "[" + "1" * 5000 + "C]"),
            ("charge signs", "[C" + "+" * 5000 + "]"), ("dots", "C." * 5000 + "C"), ("brackets", "[" * 3000),
            ("long aromatic", "c1ccccc1" * 1000), ("polyacene", "c1ccc2cc3cc4cc5cc6cc7ccccc7cc6cc5cc4cc3cc2c1")]
-    for what, s in big:
+    bn = big_number_smiles()
+    if quick:
+        bn = bn[seed() % 2::2]
+    rep.notes["big_number_inputs"] = len(bn)
+    for what, s in big + bn:
         for msg in totality(s, budget=90.0):
             f = [x for x in rep.findings if x.get("signature") == "encoder:nesting-deeper-than-recursion-limit"]
             if "RecursionError" in msg and "branches" in what and f:
